@@ -60,7 +60,11 @@ func runC08Cmd(t *testing.T, c simrt.Chooser, o Opts) *Out {
 	if len(mix) == 0 {
 		mix = []int{sbProxy, sbRefuse}
 	}
-	sp := &socksPlan{salt: uint64(p.n("salt", 1<<30)), mix: mix, latMax: p.dur("latmax", 1, timeout/3), connMax: timeout / 4}
+	latHi := timeout / 3
+	if p.pct("slowproxies", 30) {
+		latHi = timeout * 8 / 10 // answers that use most of the configured budget are still answers
+	}
+	sp := &socksPlan{salt: uint64(p.n("salt", 1<<30)), mix: mix, latMax: p.dur("latmax", 1, latHi), connMax: timeout / 4}
 	w.tcp = sp.install
 	sc := &c08cScenario{Spec: s, World: w, Timeout: timeout.String(), LatMax: sp.latMax.String()}
 	for _, b := range mix {
@@ -132,6 +136,15 @@ func runC08Cmd(t *testing.T, c simrt.Chooser, o Opts) *Out {
 			first = cr.Errs[0].Err
 		}
 		out.violate("C08.errors", sig, "argv %v: %d error records, %d probes failed (each exactly one); first %q", w.Argv, len(cr.Errs), wantErr, first)
+	}
+	// the configured timeout bounds every probe (connect + at most three data operations): N probes
+	// on W workers take at most (N/W + 1) probe bounds, plus the exit delay
+	delay := 300 * time.Millisecond
+	if s.ExitDelay != "" {
+		delay = parseDur(s.ExitDelay)
+	}
+	if limit := time.Duration(s.nprobes()/s.Workers+1)*(4*timeout+time.Millisecond) + delay + time.Millisecond; cr.ReturnT > limit && s.Rate == "" {
+		out.violate("C08.time-bound", sig, "argv %v: the scan of %d targets with %d workers took %v; with the configured timeout %v it can take at most %v", w.Argv, s.nprobes(), s.Workers, cr.ReturnT, timeout, limit)
 	}
 	if len(lines) > 1000 {
 		simrtProbe(&cr.Res, "results-over-1000")
